@@ -23,7 +23,7 @@ UCOLS = [('c', int), ('d', int)]
 
 def _conn():
     return connect(t=HTable('t', COLS, [ROW]), u=HTable('u', UCOLS, [(1, 2)]),
-                   postings=_UTable('postings', COLS, [ROW]))
+                   postings=_UTable('postings', COLS, [ROW]), w=HTable('w', [('meta', dict), ('a', int)], [({'k': 'v'}, 1)]))
 
 
 def verdict(fn):
@@ -132,6 +132,49 @@ RULES = {
         ('limit', lambda: sel([target(col('a'))], 't', limit=0), 'accept'),
     ],
 }
+
+
+PIVOT_AGG = lambda: [target(col('a')), target(col('b')), target(SUM_A(), 'r')]     # noqa: E731
+PIVOT = lambda p, q: sel(PIVOT_AGG(), 't', group_by=GB(col('a'), col('b')), pivot_by=ast.PivotBy([p, q]))     # noqa: E731
+RULES['pivot'] = [
+    ('by positions', lambda: PIVOT(1, 2), 'accept'),
+    ('by names', lambda: PIVOT(col('a'), col('b')), 'accept'),
+    ('mixed spelling', lambda: PIVOT(col('a'), 2), 'accept'),
+    ('mixed spelling reversed', lambda: PIVOT(2, col('a')), 'accept'),
+    ('first may be the aggregate', lambda: PIVOT(col('r'), 1), 'accept'),
+    ('same column by position', lambda: PIVOT(1, 1), 'reject'),
+    ('same column by name', lambda: PIVOT(col('b'), col('b')), 'reject'),
+    ('same column name then position', lambda: PIVOT(col('a'), 1), 'reject'),
+    ('same column position then name', lambda: PIVOT(2, col('b')), 'reject'),
+    ('second is not a grouping column', lambda: PIVOT(1, 3), 'reject'),
+    ('second is not a grouping column by name', lambda: PIVOT(col('a'), col('r')), 'reject'),
+    ('unknown name', lambda: PIVOT(col('a'), col('zz')), 'reject'),
+    ('position zero', lambda: PIVOT(0, 1), 'reject'),
+    ('position past the targets', lambda: PIVOT(1, 4), 'reject'),
+    ('not an aggregate query', lambda: sel([target(col('a')), target(col('b')), target(col('x'))], 't',
+                                           pivot_by=ast.PivotBy([1, 2])), 'reject'),
+]
+META = lambda fname, *args: sel([target(func(fname, *args), 'r')], 'w')     # noqa: E731
+RULES['function-arity'] = [
+    ('meta(key)', lambda: META('meta', const('k')), 'accept'),
+    ('meta()', lambda: META('meta'), 'reject'),
+    ('meta(key, surplus)', lambda: META('meta', const('k'), const('z')), 'reject'),
+    ('meta(key, surplus, surplus)', lambda: META('meta', const('k'), const('z'), const(3)), 'reject'),
+    ('meta(int)', lambda: META('meta', const(1)), 'reject'),
+    ('entry_meta()', lambda: META('entry_meta'), 'reject'),
+    ('any_meta()', lambda: META('any_meta'), 'reject'),
+    ('entry_meta(key, surplus)', lambda: META('entry_meta', const('k'), const('z')), 'reject'),
+    ('meta() in WHERE', lambda: sel([target(col('a'))], 'w', where=ast.IsNull(func('meta'))), 'reject'),
+    ('meta() in ORDER BY', lambda: sel([target(col('a'))], 'w', order_by=[ast.OrderBy(func('any_meta'), ast.Ordering.ASC)]), 'reject'),
+    ('length()', lambda: META('length'), 'reject'),
+    ('length(str, surplus)', lambda: META('length', const('k'), const('z')), 'reject'),
+    ('year()', lambda: META('year'), 'reject'),
+    ('root(account)', lambda: META('root', const('Assets:Bank')), 'accept'),
+    ('root(account, n)', lambda: META('root', const('Assets:Bank'), const(1)), 'accept'),
+    ('root(account, n, surplus)', lambda: META('root', const('Assets:Bank'), const(1), const(2)), 'reject'),
+    ('count()', lambda: META('count'), 'reject'),
+    ('sum(a, b)', lambda: sel([target(func('sum', col('a'), col('a')), 'r')], 'w'), 'reject'),
+]
 
 
 def make_rules(group, cases):
@@ -330,13 +373,13 @@ def lex_date(yi: int, m: int, d: int, in_from: bool) -> str:
 
 
 @cond('C05.lex.integer', quick=120,
-      bounds='integer literals: symbolic value 0..10^6 printed in decimal, and digit strings of length 1, 10, 100, 4300, '
+      bounds='integer literals: symbolic value 0..10^4 printed in decimal, and digit strings of length 1, 10, 100, 4300, '
              '4301, 5000, 20000: the value or a ParseError, never another exception',
       symbolic='the integer value', enumerated='oversized digit-string lengths')
 def lex_integer(n: int, big: int) -> str:
     big = enum_int(big, 0, 7)
     if big == 0:
-        assume(0 <= n <= 10 ** 6)
+        assume(0 <= n <= 10 ** 4)
         got = beanquery.parser.BQLSemantics().integer(str(n))
         if got != n:
             return 'integer-value'
